@@ -548,7 +548,7 @@ pub fn run(ctx: &Ctx) {
     );
     ctx.subspace("proptest: arbitrary printable unicode text up to 200 chars", n3 as u64, false);
     if std::env::var("VCHECK_FUZZ").is_ok() && !ctx.quick() {
-        crate::fuzzdrv::run_campaign(ctx, "beacon_text", 1000000);
+        crate::fuzzdrv::run_campaign(ctx, "beacon_text", 200000);
     }
 }
 
